@@ -28,7 +28,8 @@ async fn run(cases: &str, out: &str, workdir: &str, backend: &str) {
         let n = v["n"].as_u64().unwrap() as usize;
         let max = v["max"].as_i64().unwrap();
         let interval = v["interval_s"].as_i64().unwrap();
-        let mut cfg = format!("tick_interval_secs = {interval}\nkeep_processes = true\nmax_message_retry_times = {max}\n");
+        let keep = v["keep"].as_bool().unwrap_or(true);
+        let mut cfg = format!("tick_interval_secs = {interval}\nkeep_processes = {keep}\nmax_message_retry_times = {max}\n");
         if backend == "sqlite" {
             let db = format!("{workdir}/retry-{cid}.db");
             let _ = std::fs::remove_file(&db);
@@ -63,6 +64,20 @@ async fn run(cases: &str, out: &str, workdir: &str, backend: &str) {
                 } else {
                     log.lock().unwrap().push((e.id.clone(), e.tid.clone(), e.retry_times));
                 }
+            });
+        }
+        // a second acknowledging channel: the terminal message of the process (it outlives the process)
+        let chan2 = engine.channel_with_options(&ChannelOptions {
+            id: "chan2".to_string(),
+            ack: true,
+            r#type: "workflow".to_string(),
+            state: "{completed,error,aborted}".to_string(),
+            ..Default::default()
+        });
+        {
+            let log = log.clone();
+            chan2.on_message(move |e| {
+                log.lock().unwrap().push((e.id.clone(), e.tid.clone(), e.retry_times));
             });
         }
         let branches: Vec<Value> = (0..n)
